@@ -67,6 +67,24 @@ def contend(level="quick", Ms=(1, 2, 3)):
                                                             "wb": wb})
 
 
+def zero_comp_scope(level="quick"):
+    """Workflows with structural nodes (no compute, no data demand) whose
+    allocation coincides with another workflow's allocations."""
+    pairs = [(dag("chain3", [1, 0, 1], [0, 0]), dag("chain2", [0, 1], [0])),
+             (dag("fork", [0, 1, 1], 0), dag("chain3", [1, 0, 0], [0, 0])),
+             (dag("diamond", [0, 1, 1, 0], 0), dag("single", [0]))]
+    if level == "thorough":
+        pairs.append((dag("join", [0, 0, 1], 0), dag("fork", [1, 0, 0], 0)))
+    for M in (2, 3):
+        for machines in CLUSTERS[M][:(2 if level == "thorough" else 1)]:
+            for s2 in (0, 1, 2, 3, 4):
+                for wa, wb in pairs:
+                    obs = [mkobs("a", 0, 1, 1, 1, 1, "wa"),
+                           mkobs("b", s2, 1, 1, 1, 1, "wb")]
+                    cfg = mkcfg(machines, obs, (100, 10), (100, 10), 2, 2)
+                    yield "S-zero-comp", mkcase(cfg, {"wa": wa, "wb": wb})
+
+
 def contend3(level="quick"):
     """three observations, sub-array demands"""
     wa = dag("fork", [1, 2, 1], [2, 0])
